@@ -6,7 +6,8 @@ import numpy as np
 from .. import core
 
 OBJS = {
-    'radial':      dict(arrays=['profile', 'profile_error', 'data_profile'], zero=[]),
+    # data_radius shares a cached helper with data_profile; it is not scaled (like ree)
+    'radial':      dict(arrays=['profile', 'profile_error', 'data_profile', 'data_radius'], zero=[]),
     # ee / ree: the encircled-energy interpolators evaluated at the sampled radii (pseudo-arrays: whatever they keep must follow the scale)
     'cog':         dict(arrays=['profile', 'profile_error', 'ee', 'ree'], zero=[]),
     'cog_zerosum': dict(arrays=['profile', 'profile_error'], zero=['sum']),
@@ -82,7 +83,7 @@ def replay(args):
             except Exception as e:  # noqa
                 out.append(('raises_after_history', dict(sig, array=a), {'exc': repr(e), 'path': path}))
                 continue
-            exp = raw[a] / total if a != 'ree' else raw[a]
+            exp = raw[a] / total if a not in ('ree', 'data_radius') else raw[a]
             if got.shape != exp.shape or not np.allclose(got, exp, rtol=1e-10, atol=1e-13, equal_nan=True):
                 cached = step['scale'][a] != ['NotCached']
                 out.append(('array_at_current_scale' if op != 'unnormalize' else 'unnormalize_restores_raw',
